@@ -11,7 +11,7 @@ use lrtable::{Action, StIdx};
 use rayon::prelude::*;
 use serde_json::json;
 use std::collections::{BTreeMap, BTreeSet};
-use vcore::gram::{Assoc, RefGrammar, Sym, family_expr};
+use vcore::gram::{Assoc, RefGrammar, Sym, family_expr, family_ternary};
 use vcore::real::{BuildErr, Built, build};
 use vcore::refs::{Analysis, Lr1, LrAct, analyse};
 use vcore::report::Ctx;
@@ -532,6 +532,9 @@ pub fn spec_space(ctx: &Ctx) -> (Vec<RefGrammar>, Vec<(String, usize)>, usize) {
     let fe = family_expr();
     sizes.push(("F-expr".to_string(), fe.len()));
     bases.extend(fe);
+    let ft = family_ternary();
+    sizes.push(("F-ternary".to_string(), ft.len()));
+    bases.extend(ft);
     let nbases = bases.len();
     (bases, sizes, nbases)
 }
